@@ -197,7 +197,7 @@ fn quartic_arg(r: &mut Rng, lo_switch: f64, hi_switch: f64) -> (f64, &'static st
         6 => ((-(r.uniform(-2.0, 2.0))).exp(), "x_sweep_-2_2"),
         7 => (r.uniform(0.79, 1.21), "v_benchmark_range"),
         8 => (10f64.powf(r.uniform(-307.6, -5.0)), "v_tiny"),
-        9 => (10f64.powf(r.uniform(5.0, 300.0)), "v_huge"),
+        9 => (10f64.powf(r.uniform(5.0, 308.25)).min(f64::MAX), "v_huge"),
         10 => ((-(r.logu(3.0) * 1e-6)).exp(), "x_near_zero"),
         _ => (r.uniform(0.0, 10.0).max(1e-300), "v_moderate"),
     }
